@@ -365,7 +365,7 @@ func (nl *NodeList) Union(nl2 *NodeList) *NodeList {
 	ret := &NodeList{
 		Nodes:        []*Node{},
 		Edges:        copyEdgeList(nl.Edges),
-		RootElements: nl.RootElements,
+		RootElements: slices.Clone(nl.RootElements),
 	}
 
 	// Copy all nodes from the original nodelist
